@@ -156,7 +156,12 @@ def _gymnax_table_env():
     class GxTable(E.Environment):
         @property
         def default_params(self):
-            return GParams()
+            # valid but *different* from every table the harness supplies: one initial state, the last (padding) row of the tables.
+            # An adapter that ignores the params it was given then produces a wrong trajectory instead of a crash in this class.
+            n = tb.NS_MAX + 1
+            return GParams(max_steps_in_episode=1000, T=jnp.full((n, n), n - 1, dtype=jnp.int32), R=jnp.zeros((n, n, n), dtype=jnp.float32),
+                           Term=jnp.zeros((n,), dtype=bool), Init=jnp.full((tb.NI_MAX,), n - 1, dtype=jnp.int32),
+                           nInit=jnp.asarray(1, dtype=jnp.int32), Obs=jnp.full((n,), tb.NO_DISC - 1, dtype=jnp.int32))
 
         def step_env(self, key, state, action, params):
             s2 = params.T[state.s, action]
